@@ -69,6 +69,10 @@ PROPS = {
                 assumptions=["component types of known fixed width (INTEGER (0..7), BOOLEAN, INTEGER (0..255) DEFAULT 5)", "automatic tagging, so the canonical SET order equals the textual order"]),
     "C05": dict(ZOO, level="exploration", variants={"quick": ["checked"], "thorough": ["checked"]}, shards={"quick": 16, "thorough": 16},
                 assumptions=["the expected view of the other version comes from the R-PER decoder run with the other version's schema"]),
+    "C04": dict(ZOO, level="fault_enumeration", variants={"quick": ["checked"], "thorough": ["checked", "wrapping"]}, shards={"quick": 16, "thorough": 16},
+                assumptions=["allocation bound: largest request and peak live bytes <= 64 MiB + 4096 x input octets", "'never hangs' = every batch finishes within the watchdog; a firing watchdog is repeated in isolation before it counts"]),
+    "C19": dict(ZOO, level="exploration", variants={"quick": ["checked", "ddesc"], "thorough": ["checked", "ddesc"]}, shards={"quick": 16, "thorough": 16},
+                assumptions=["both builds are produced from the same generated sources; only the asn1rs feature descriptive-deserialize-errors differs"]),
     "C06": dict(ZOO, level="exploration", variants={"quick": ["checked"], "thorough": ["checked", "wrapping"]}, shards={"quick": 16, "thorough": 16},
                 assumptions=["only violating values the generated Rust type can hold are judged (u8 cannot hold 256)", "UTF8String SIZE is counted in characters, as the generated constraint does"]),
 }
@@ -284,7 +288,58 @@ def engine_zoo(prop, cfg, tier, seed, merged):
                 merged["notes"].append("zoo groups excluded after compile errors (C09 observations): %s" % ",".join(ex))
         except Exception:  # noqa
             pass
+    if prop == "C19":
+        c19_compare(cfg, tier, merged, problems)
     return problems
+
+
+def c19_compare(cfg, tier, merged, problems):
+    """line-by-line comparison of the outcome tables written by the two feature builds"""
+    compared = differing = 0
+    for i in range(cfg["shards"][tier]):
+        pa = os.path.join(OUT, "C19-%s-checked-%d.json.table" % (tier, i))
+        pb = os.path.join(OUT, "C19-%s-ddesc-%d.json.table" % (tier, i))
+        if not (os.path.exists(pa) and os.path.exists(pb)):
+            problems.append("C19: outcome table of shard %d missing for one of the builds" % i)
+            continue
+        with open(pa) as fa, open(pb) as fb:
+            la, lb = fa.read().split("\n"), fb.read().split("\n")
+        shard_diff = 0
+        for a, b in zip(la, lb):
+            compared += 1
+            if a == b:
+                continue
+            fa_, fb_ = a.split(" "), b.split(" ")
+            if fa_[:5] != fb_[:5]:
+                # inputs derived from what an earlier input decoded to (corpus types) diverge after a differing line;
+                # without such a line the builds did not run the same workload and nothing can be said
+                if shard_diff == 0:
+                    problems.append("C19: tables of shard %d are not aligned (%s / %s) although no earlier line differs" % (i, " ".join(fa_[:3]), " ".join(fb_[:3])))
+                break
+            differing += 1
+            shard_diff += 1
+            oa, ob = fa_[6].split(":")[0:2], fb_[6].split(":")[0:2]
+            import re as _re
+            ka = oa[0] if oa[0] == "Ok" else _re.match(r"[A-Za-z0-9:_]*", ":".join(oa)).group(0)[:60]
+            kb = ob[0] if ob[0] == "Ok" else _re.match(r"[A-Za-z0-9:_]*", ":".join(ob)).group(0)[:60]
+            what = "outcome" if fa_[6] != fb_[6] else "consumed-bits"
+            sig = "c19:%s-differs:default=%s:descriptive=%s" % (what, ka.split("(")[0], kb.split("(")[0])
+            e = merged["violations"].setdefault(sig, {"count": 0, "witnesses": [], "class": None, "variants": set()})
+            e["count"] += 1
+            e["variants"].update(["checked", "ddesc"])
+            if len(e["witnesses"]) < 3:
+                e["witnesses"].append({"variant": "checked+ddesc", "witness": {"type_id": fa_[0], "type": fa_[1], "input_index": fa_[2], "bit_len": fa_[3], "input_hex": fa_[4],
+                                                                              "default_build": {"consumed": fa_[5], "outcome": fa_[6]}, "descriptive_build": {"consumed": fb_[5], "outcome": fb_[6]}}})
+        if len(la) != len(lb) and shard_diff == 0:
+            problems.append("C19: outcome tables of shard %d have different lengths (%d / %d) although no line differs" % (i, len(la), len(lb)))
+        for pth in (pa, pb):
+            try:
+                os.remove(pth)
+            except OSError:
+                pass
+    merged["hist"].setdefault("table-comparison", {})["lines-compared"] = compared
+    merged["hist"]["table-comparison"]["lines-differing"] = differing
+    merged["floor"]["c19:table-lines-compared"] = compared
 
 
 ENGINES = {"primmon": engine_primmon, "frontmon": engine_frontmon, "zoo": engine_zoo}
